@@ -219,10 +219,25 @@ def _check_probe(rec, family, base, rows_by_name, r, kind, val, expect):
                 rec.violation('bound_not_used_as_given', case, detail, cls=r['cls'], name=name, probe=kind)
 
 
+class FamilyRejected(Exception):
+    pass
+
+
+def _base_rejected(rec, family, base, e):
+    """the family base only holds values inside their declared ranges: a range rejection of it is a refused valid value"""
+    e = e.args[0]
+    if 'outside of valid range' in (e.get('msg') or ''):
+        rec.case({'family': family, 'params': base}, nontrivial=False)
+        rec.violation('in_range_base_value_rejected', {'family': family, 'params': base, 'probe': ['-', 'base', '0', 'accept']},
+                      {'rejected': e}, message=e.get('msg'))
+    else:
+        raise RuntimeError(f'HARNESS: family base {family} not accepted: {e}')
+
+
 def _family_rows(base):
     m, e = sim.read_only(sim.render(base))
     if e:
-        raise RuntimeError(f'HARNESS: family base not accepted: {e}')
+        raise FamilyRejected(e)
     rows = [r for r in meta.param_rows(m) if r['kind'] in ('floatParameter', 'intParameter')]
     return rows
 
@@ -230,7 +245,11 @@ def _family_rows(base):
 def run_shard(spec, rec):
     if spec['kind'] == 'enum':
         base = families()[spec['family']]
-        rows = _family_rows(base)
+        try:
+            rows = _family_rows(base)
+        except FamilyRejected as e:
+            _base_rejected(rec, spec['family'], base, e)
+            return
         byname = _name_ranges(rows)
         for r in rows:
             for kind, val, expect in _probe_values(r):
@@ -246,7 +265,11 @@ def run_shard(spec, rec):
 
         def rows_of(f):
             if f not in cache:
-                rows = _family_rows(fams[f])
+                try:
+                    rows = _family_rows(fams[f])
+                except FamilyRejected as e:
+                    _base_rejected(rec, f, fams[f], e)
+                    rows = []
                 cache[f] = (rows, _name_ranges(rows))
             return cache[f]
 
@@ -254,6 +277,8 @@ def run_shard(spec, rec):
         def probes(draw):
             f = draw(st.sampled_from(names))
             rows, byname = rows_of(f)
+            if not rows:
+                return f, None, 'none', 0, 'skip'
             r = draw(st.sampled_from(rows))
             if r['kind'] == 'floatParameter':
                 lo, hi = float(r['min']), float(r['max'])
@@ -425,7 +450,12 @@ def evaluate(case, rec):
         r = [x for x in _hip_rows(m) if x['name'] == name][0]
         _hip_probe(rec, r, kind, val, expect)
         return
-    base = gen.drop_param(case['params'], name) if False else case['params']
+    if kind == 'base':
+        try:
+            _family_rows(case['params'])
+        except FamilyRejected as e:
+            _base_rejected(rec, case['family'], case['params'], e)
+        return
     # rebuild metadata from the case's own params with the probed parameter removed
     base = [p for p in case['params'] if p[0] != name] + [p for p in families().get(case['family'], []) if p[0] == name]
     rows = _family_rows(base)
